@@ -298,7 +298,8 @@ class Report:
             if not c.conc:
                 continue
             if not c.sym:
-                jobs.append({"case": cid, "inputs": {"__tier": self.tier}, "seed": self.seed, "finite": True})
+                jobs.append({"case": cid, "inputs": {"__tier": self.tier}, "seed": self.seed, "finite": True,
+                             "timeout": 1500})
                 continue
             for i in range(k):
                 jobs.append({"case": cid, "inputs": {}, "seed": (self.seed + 1) * 100003 + i})
